@@ -38,6 +38,11 @@ chk('C15', 'exploration',
     FMT + 'Oracle: the sequence of COMMENT tokens (falco lexer) of the output equals that of the input — each once, same text up to the line-comment marker when comment_style is set, same relative order (multiset only when a sort option is on).',
     'Trusts: the placeholder table transcribed from docs/parser.md in mc/gen/print.go. Known findings (placeholders whose comments are dropped; line comments at inline placeholders) listed in known_findings.json.', '§4 C03/C14/C15')
 
+chk('C19', 'exploration',
+    'bounded-exhaustive enumeration: round-trip of all grammar derivations; all truncations / bit flips / substitutions / splices of valid encodings through the real decoder under fuel',
+    'Round trip: every statement/declaration derivation within 2 (quick) / 3 (thorough) deviations, the literal table, strings of boundary lengths (0..70000) and a >64 KiB subroutine; each top-level statement, each body statement (Encode) and the whole file (Encodes) is encoded, decoded and compared field by field. Totality: for one small encoding per node kind every truncation, single-bit flip, boundary/frame-type byte substitution, one-byte deletion/insertion, pairwise splices and all byte strings up to length 3 over frame types are decoded under a fuel budget; the decoder must return statements or an error.',
+    'Trusts: mc/gen tree dump; fuel instrumentation of ast/codec. Comments, positions and presentational flags are excepted as the property states. Known: 16-bit frame length (>=64 KiB strings), subroutine parameters not encoded.')
+
 NOT_YET = {i: 'check not built yet in this session (design in DESIGN.md §4); will be claimed once its command exists' for i in ids if i not in CHECKS}
 
 m = {
